@@ -307,12 +307,14 @@ PROPS["C15"] = {
     "parts": [
         {"name": "regression", "kind": "plain", "test": "TestReplayDir"},
         {"name": "orders", "kind": "plain", "test": "TestC15Orders"},
+        {"name": "determinism", "kind": "rapid", "test": "TestC15Determinism", "checks": {"quick": 24000, "thorough": 800000}},
         {"name": "rapid", "kind": "rapid", "test": "TestC15Rapid", "checks": {"quick": 640, "thorough": 24000}, "shrinktime": "60s"},
     ],
     "universes": {"families": list(FAMS)},
     "rule": "case = history of 1..12 (10%: 13..40) encoder calls: pool of one QR/DataMatrix call per distinct Reed-Solomon degree (QR 7..30 check codewords, DataMatrix "
             "5..68) ordered ascending/descending/randomly, mixed with calls from all 12 entry-point families (plain and coloured), sometimes repeating the first call "
-            "at the end; orders = the whole pool ascending, descending and in three fixed permutations. Non-trivial = history with >= 2 distinct RS degrees or an "
+            "at the end; orders = the whole pool ascending, descending and in three fixed permutations; determinism = single calls (weighted to the searching / "
+            "map-based encoders: Aztec incl. equal-cost mode ties such as a bare CR, PDF417, Code 128, Code 39/93) executed 12 times in-process. Non-trivial = history with >= 2 distinct RS degrees or an "
             "Aztec aliasing probe; distinct by the whole history.",
     "assumptions": COMMON_ASSUMPTIONS + ["a freshly exec'ed helper process is a faithful 'fresh process'"],
 }
